@@ -194,3 +194,93 @@ EXPLANATION = "under construction"
 ASSUMPTIONS = []
 TRUSTED = []
 BOUNDED = [{"name": "error-channel-over-argv-and-config-grammar", "script": "bounded/b03_error_channel.py"}]
+
+
+# ------------------------------------------------------------------------------------------------ add_subcommand: error channel inherited
+def asc_setup(ctx):
+    name = ["fit", "subcommand"][ctx.choose(2, "name")]
+    has_sub = ctx.choose(2, "sub-parser-already-has-subcommands") == 1
+    kw = [{}, {"aliases": ("f", "train"), "help": "fit the model"}][ctx.choose(2, "kwargs")]
+    parent = Rec("ArgumentParser(parent)", attrs={"default_env": z3.Bool("parent.default_env"), "parser_mode": z3.String("parent.parser_mode"), "exit_on_error": z3.Bool("parent.exit_on_error"),
+                                                   "_error_handler": Rec("error_handler"), "logger": Rec("logger")})
+    parser = Rec("ArgumentParser(sub)", attrs={"_subparsers": Rec("subparsers") if has_sub else None, "exit_on_error": z3.Bool("sub.exit_on_error(before)"), "parser_mode": z3.String("sub.parser_mode(before)"),
+                                                "_error_handler": Rec("sub_handler"), "logger": Rec("sub_logger"), "default_env": z3.Bool("sub.default_env(before)")})
+    self = Rec("_ActionSubCommands", attrs={"dest": "subcommand", "_prog_prefix": "app", "env_prefix": "APP_", "parent_parser": parent, "_choices_actions": [], "_name_parser_map": {}},
+               methods={"_ChoicesPseudoAction": lambda c, s_, a, k: Rec("choice", attrs={"name": a[0], "aliases": a[1], "help": a[2]})})
+    return Setup(env={"self": self, "name": name, "parser": parser, "kwargs": dict(kw)}, data=dict(name=name, has_sub=has_sub, kw=kw, parent=parent, parser=parser, self_=self))
+
+
+def asc_post(ctx, st, result):
+    d = st.data
+    p, par = d["parser"], d["parent"]
+    if d["has_sub"] or d["name"] == "subcommand":
+        ctx.oblige("post", "a-sub-parser-with-subcommands-or-a-name-equal-to-dest-is-refused", False)
+        return
+    ctx.oblige("post", "the-sub-parser-reports-failures-the-way-its-parent-does(exit_on_error and error handler inherited)",
+               z3.And(lift(p.attrs["exit_on_error"]) == par.attrs["exit_on_error"], z3.BoolVal(p.attrs["_error_handler"] is par.attrs["_error_handler"])))
+    ctx.oblige("post", "the-sub-parser-loads-values-in-the-parent's-mode-and-environment-setting",
+               z3.And(lift(p.attrs["parser_mode"]) == par.attrs["parser_mode"], lift(p.attrs["default_env"]) == par.attrs["default_env"], z3.BoolVal(p.attrs["logger"] is par.attrs["logger"])))
+    names = (d["name"],) + tuple(d["kw"].get("aliases", ()))
+    m = d["self_"].attrs["_name_parser_map"]
+    ctx.oblige("post", "the-name-and-every-alias-select-this-sub-parser", result is p and sorted(m) == sorted(names) and all(v is p for v in m.values())
+               and p.attrs.get("parent_parser") is par and p.attrs.get("subcommand") == d["name"] and p.attrs.get("env_prefix") == "APP_" + d["name"] + "_")
+
+
+def asc_raises(ctx, st, exc):
+    d = st.data
+    ctx.oblige("raises", f"only-the-two-declaration-errors-are-refused(got {exc.cls})", exc.cls == "ValueError" and (d["has_sub"] or d["name"] == "subcommand"))
+
+
+UNITS.append(Unit("C03", "jsonargparse._actions:_ActionSubCommands.add_subcommand", asc_setup, asc_post, asc_raises, expect_cover=("return", "raise:ValueError"),
+                  trusted=["argparse's _ChoicesPseudoAction only holds help text"]))
+
+
+# ------------------------------------------------------------------------------------------------ apply_appends: the type check runs inside a parser context
+def aa_setup(ctx):
+    keys = [["nums+"], ["a", "nums+", "b"], ["nums+", "other+"], ["a"], ["free+"]][ctx.choose(5, "cfg-keys")]
+    mode = z3.String("parser.parser_mode")
+    parser = Rec("ArgumentParser", attrs={"parser_mode": mode})
+    store = {k: z3.String("value-of-" + k.rstrip("+")) for k in keys}
+    open_ctx = []
+
+    def check_type(c, s_, a, k):
+        # contract of ActionTypeHint._check_type_ (its loader asserts get_load_value_mode() is set): requires an enclosing parser context
+        c.oblige("pre", f"_check_type_-is-called-inside-a-parser-context-with-this-parser's-load-mode[{s_.attrs['dest']}]",
+                 z3.BoolVal(bool(open_ctx)) if not open_ctx else lift(open_ctx[-1].get("load_value_mode")) == mode)
+        c.event("checked", s_.attrs["dest"], a[0], dict(k))
+        fate = c.choose(2, f"append-check-of-{s_.attrs['dest']}")
+        if fate == 1:
+            raise PyRaise(ExcVal("TypeError", ("ill-typed",), origin="_check_type_"))
+        return z3.String("checked-" + s_.attrs["dest"])
+
+    actions = {k[:-1]: Rec("ActionTypeHint", attrs={"dest": k[:-1]}, methods={"_check_type_": check_type}) for k in keys if k.endswith("+") and k != "free+"}
+    cfgrec = Rec("Namespace", attrs={"store": store}, methods={
+        "keys": lambda c, s_, a, k: list(s_.attrs["store"].keys()), "__getitem__": lambda c, s_, a, k: s_.attrs["store"][a[0]],
+        "__setitem__": lambda c, s_, a, k: s_.attrs["store"].__setitem__(a[0], a[1]), "pop": lambda c, s_, a, k: s_.attrs["store"].pop(a[0])})
+    calls = {"_find_action": lambda c, a, k: actions.get(a[1]), "ActionTypeHint.supports_append": lambda c, a, k: a[0] is not None}
+    cms = {"parser_context": (lambda c, a, k: open_ctx.append(dict(k)), lambda c, t, e: (open_ctx.pop(), False)[1])}
+    return Setup(env={"parser": parser, "cfg": cfgrec}, calls=calls, cms=cms, data=dict(keys=keys, store=store, before=dict(store), open_ctx=open_ctx, actions=actions))
+
+
+def aa_post(ctx, st, result):
+    d = st.data
+    want = {}
+    for k, v in d["before"].items():
+        if k.endswith("+") and k[:-1] in d["actions"]:
+            want[k[:-1]] = "checked"
+        else:
+            want[k] = v
+    got = d["store"]
+    ok = set(got) == set(want) and all((is_z3(got[k]) and str(got[k]) == '"checked-%s"' % k or got[k].eq(z3.String("checked-" + k))) if want[k] == "checked" else got[k] is want[k] for k in want)
+    ctx.oblige("post", f"every-appendable-key+-is-replaced-by-the-checked-value-under-key;other-keys-untouched{d['keys']}", ok)
+    ctx.oblige("post", "no-parser-context-is-left-open", not d["open_ctx"])
+
+
+def aa_raises(ctx, st, exc):
+    d = st.data
+    ctx.oblige("raises", f"only-the-type-check-may-fail(got {exc.cls}@{exc.origin})", exc.cls == "TypeError" and exc.origin == "_check_type_")
+    ctx.oblige("raises", "no-parser-context-is-left-open-on-failure", not d["open_ctx"])
+
+
+UNITS.append(Unit("C03", "jsonargparse._typehints:ActionTypeHint.apply_appends", aa_setup, aa_post, aa_raises, expect_cover=("return", "raise:TypeError"),
+                  trusted=["_check_type_ requires an enclosing parser_context (get_load_value_mode asserts it): stated as its precondition and checked at this call site"]))
